@@ -132,7 +132,7 @@ func C07(r *core.Run) {
 		"(L2) static lockset — every access to guarded state (guard table confirmed by reading: memory backend maps/skiplists/version data, version generator, uploader bookkeeping, every afero.Fs use of the fs backends) holds its owning lock in the needed mode on every call path from every entry point; " +
 		"(L3) the lock-order graph is acyclic and no lock is acquired while it may already be held (sync mutexes are not reentrant); " +
 		"(L5) configuration fields are written only before the object is shared, requestID only through sync/atomic; bolt handles are used only inside View/Update transactions; " +
-		"(R01.6) stored bodies handed to readers are never mutated."
+		"(L8) bytes owned by a bolt transaction are copied before they are decoded into anything that outlives it; (R01.6) stored bodies handed to readers are never mutated."
 	r.NotDecided = "linearizability of histories, lost updates at the S3-semantics level (MergeMetadata reads and writes in different critical sections — printed as REVIEW), torn reads on a real directory (see C15/C08 known findings F14), fairness"
 	a := newLockset(r)
 	for _, u := range a.Unresolved {
@@ -151,6 +151,7 @@ func C07(r *core.Run) {
 	ruleL3(r, a)
 	ruleL5(r, a)
 	ruleL7(r)
+	ruleL8(r)
 	rule016(r, "C07")
 }
 
@@ -496,4 +497,137 @@ func newLockset(r *core.Run) *lockset.Analysis {
 		"s3afero.SingleBucketBackend.lock": "s3afero.<backend>.lock",
 	}
 	return lockset.New(r.P)
+}
+
+// ruleL8 — bolt-owned bytes do not outlive their transaction.
+func ruleL8(r *core.Run) {
+	r.Rule("L8", "in s3bolt a record decoded (bson.Unmarshal) into storage that outlives the transaction closure is decoded from a private copy of the bytes bolt returned (append([]byte(nil), v...), bytes.Clone, make+copy): bolt's slices alias its memory map and are invalid after the transaction; a record decoded into a closure-local value must not leak its []byte fields")
+	boltSources := func(n string) bool {
+		return n == "(*go.etcd.io/bbolt.Bucket).Get" || strings.HasPrefix(n, "(*go.etcd.io/bbolt.Cursor).")
+	}
+	n := 0
+	for _, fn := range r.P.FuncsOfPkg("s3bolt") {
+		f := fn
+		for _, ci := range r.P.CallsIn(fn, false, core.NameIs("gopkg.in/mgo.v2/bson.Unmarshal", "encoding/json.Unmarshal")) {
+			c := ci.(*ssa.Call)
+			src, dst := c.Call.Args[0], c.Call.Args[1]
+			ss := r.P.SliceOf(src, core.SliceOpts{Depth: -1})
+			fromBolt := false
+			for sc := range ss.Calls {
+				if boltSources(r.P.CalleeName(sc)) {
+					fromBolt = true
+				}
+			}
+			if !fromBolt {
+				continue
+			}
+			n++
+			// is there a copy between bolt and the decoder?
+			copied := isPrivateCopy(r, src, 0)
+			// where does the decoded value live?
+			ds := r.P.SliceOf(dst, core.SliceOpts{Depth: -1})
+			outlives := ds.HasPrefix("freevar:") || ds.HasPrefix("param:") || ds.HasPrefix("global:")
+			for l := range ds.Leaves {
+				// a captured variable shows up as the parent's alloc
+				if strings.HasPrefix(l, "alloc:") {
+					for _, v := range ds.LeafVals[l] {
+						if a, ok := v.(*ssa.Alloc); ok && a.Parent() != f {
+							outlives = true
+						}
+					}
+				}
+			}
+			k := key(fname(r, f), "decode of bolt-owned bytes", sprintf("#%d", n))
+			if !outlives {
+				// closure-local record: its []byte fields must not be returned/stored outside
+				leak := ""
+				if a, ok := dst.(*ssa.Alloc); ok {
+					for _, ref := range *a.Referrers() {
+						fa, ok := ref.(*ssa.FieldAddr)
+						if !ok {
+							continue
+						}
+						if _, isSlice := derefType(fa.Type()).Underlying().(*types.Slice); !isSlice {
+							continue
+						}
+						for _, u := range *fa.Referrers() {
+							ld, ok := u.(*ssa.UnOp)
+							if !ok {
+								continue
+							}
+							for _, uu := range *ld.Referrers() {
+								switch x := uu.(type) {
+								case *ssa.Store:
+									leak = "stored at " + pos(r, x)
+								case *ssa.Return:
+									leak = "returned at " + pos(r, x)
+								case *ssa.MakeInterface:
+									leak = "boxed at " + pos(r, x)
+								}
+							}
+						}
+					}
+				}
+				r.Check(leak == "" || copied, "L8", k, pos(r, c), "decoded into a transaction-local value whose byte fields do not leave the closure", "a []byte field decoded from bolt-owned memory leaves the transaction ("+leak+")")
+				continue
+			}
+			r.Check(copied, "L8", k, pos(r, c), "decoded from a private copy", "a record is decoded straight from bolt-owned bytes into a value that outlives the transaction: its []byte fields (object contents, hash) alias bolt's memory map, and reading them after later writes returns changed bytes or faults")
+		}
+	}
+	if n < 2 {
+		r.Unresolved("L8: only %d decodes of bolt-owned bytes found in s3bolt (expected >= 2)", n)
+	}
+}
+
+func derefType(t types.Type) types.Type {
+	if pt, ok := t.Underlying().(*types.Pointer); ok {
+		return pt.Elem()
+	}
+	return t
+}
+
+// isPrivateCopy: v is a fresh copy of some bytes: append(nil-or-fresh, x...),
+// bytes.Clone(x), or a make()d slice filled by copy.
+func isPrivateCopy(r *core.Run, v ssa.Value, d int) bool {
+	if d > 4 {
+		return false
+	}
+	switch x := v.(type) {
+	case *ssa.Phi:
+		for _, e := range x.Edges {
+			if !isPrivateCopy(r, e, d+1) {
+				return false
+			}
+		}
+		return len(x.Edges) > 0
+	case *ssa.Call:
+		n := r.P.CalleeName(x)
+		if n == "bytes.Clone" || n == "slices.Clone" {
+			return true
+		}
+		if n == "builtin:append" && len(x.Call.Args) == 2 {
+			a0 := x.Call.Args[0]
+			if core.IsNilConst(a0) {
+				return true
+			}
+			if c, ok := a0.(*ssa.Const); ok && c.Value == nil {
+				return true
+			}
+			if _, ok := a0.(*ssa.MakeSlice); ok {
+				return true
+			}
+			if cv, ok := a0.(*ssa.Convert); ok {
+				if c, ok := cv.X.(*ssa.Const); ok && c.Value == nil {
+					return true
+				}
+			}
+		}
+	case *ssa.MakeSlice:
+		return true
+	case *ssa.Convert:
+		if c, ok := x.X.(*ssa.Const); ok && c.Value == nil {
+			return true
+		}
+	}
+	return false
 }
